@@ -13,6 +13,8 @@ pub struct JsonCfg {
     pub p_escape: u64,
     pub p_shuffle_keys: u64,
     pub exotic: bool,
+    /// size outlier (see GenCfg::big)
+    pub big: Option<usize>,
 }
 
 impl JsonCfg {
@@ -25,6 +27,7 @@ impl JsonCfg {
             p_escape: *rng.pick(&[0, 100, 400]),
             p_shuffle_keys: *rng.pick(&[0, 300, 1000]),
             exotic: true,
+            big: if rng.chance(1, 40) { Some(*rng.pick(&[127usize, 128, 129, 255, 256, 257, 300, 1023, 1024, 1025, 4097, 65535, 65537])) } else { None },
         }
     }
 }
@@ -57,7 +60,13 @@ impl<'r> JEmitter<'r> {
     }
 
     fn string_body(&mut self) -> String {
-        let n = self.rng.range(0, 8);
+        let mut n = self.rng.range(0, 8);
+        if let Some(big) = self.cfg.big {
+            if self.rng.chance(1, 3) {
+                n = big;
+                self.cfg.big = None;
+            }
+        }
         let mut s = String::new();
         for _ in 0..n {
             if self.rng.chance(self.cfg.p_escape, 1000) {
@@ -286,7 +295,13 @@ impl<'r> JEmitter<'r> {
 
     pub fn list(&mut self, depth: usize) {
         self.out.push('[');
-        let n = self.rng.range(0, self.cfg.max_items);
+        let mut n = self.rng.range(0, self.cfg.max_items);
+        if let Some(big) = self.cfg.big {
+            if big <= 4097 && self.rng.chance(1, 3) {
+                n = big;
+                self.cfg.big = None;
+            }
+        }
         for i in 0..n {
             self.ws();
             self.value(depth);
@@ -323,7 +338,18 @@ impl<'r> JEmitter<'r> {
     pub fn grid(&mut self, depth: usize) {
         // degenerate shapes included: no columns at all (with or without rows)
         let ncols = if self.cfg.exotic && self.rng.chance(1, 12) { 0 } else { self.rng.range(1, 4) };
-        let nrows = self.rng.range(0, 4);
+        let mut nrows = self.rng.range(0, 4);
+        let mut ncols = ncols;
+        if let Some(big) = self.cfg.big {
+            if big <= 1025 && self.rng.chance(1, 3) {
+                if self.rng.chance(1, 2) {
+                    ncols = big;
+                } else {
+                    nrows = big;
+                }
+                self.cfg.big = None;
+            }
+        }
         let mut cols: Vec<String> = Vec::new();
         for _ in 0..ncols {
             let mut k = self.id();
